@@ -166,7 +166,7 @@ class Tags:
             tags.append({"name": "floating", "kind": "junk", "branch": "main", "depth": 2})
         # tags that so far exist on the remote only (pushed by CI or a colleague, onto commits this clone has): every run
         # fetches first, so they count
-        if not self.real and rng.random() < 0.3:
+        if (not self.real and rng.random() < 0.3) or (self.real and moved and rng.random() < 0.6):
             for t in tags:
                 if t["name"] != "floating" and rng.random() < 0.4:
                     t["remote_only"] = True
@@ -186,12 +186,15 @@ class Tags:
         return {"pattern": pat["pattern"], "epoch": epoch.isoformat(), "state": state, "cfg_text": cfg_text,
                 "branches": branches, "head": rng.choice(branches), "tags": tags, "scope": scope,
                 "pers": "hg" if (not self.real and rng.random() < 0.2) else "git",
-                "commit": rng.random() < 0.5, "ops": ops, "twin_branch": twin, "moved_remote_tag": moved}
+                "commit": rng.random() < 0.5, "ops": ops, "twin_branch": twin, "moved_remote_tag": moved,
+                # the checked-out branch has no upstream (new local branch, detached HEAD of a CI checkout): the remote is
+                # then only known through remote.origin.url
+                "no_upstream": rng.random() < 0.3}
 
     # ---- world building ---------------------------------------------------------------------------
     def build_fake(self, case, d):
         pers = case.get("pers", "git")
-        repo = fakevcs.FakeRepo(pers, remote=True)
+        repo = fakevcs.FakeRepo(pers, remote=True, tracking=not case.get("no_upstream"))
         os.mkdir(os.path.join(d, ".git" if pers == "git" else ".hg"))
         main = repo.head
         repo.baseline(d)
@@ -245,6 +248,13 @@ class Tags:
             rg.git("push", "-q", "origin", "--tags")
             rg.git("tag", "-f", "floating", chains["main"][1], cwd=rg.remote_path)
         rg.git("checkout", "-q", case["head"])
+        rg.all_tags = set(rg.tags())
+        rg.reachable_tags = set(rg.tags_merged())
+        if case.get("moved_remote_tag"):
+            # tags that a colleague pushed and this clone has not fetched yet
+            for t in case["tags"]:
+                if t.get("remote_only") and t["name"] in rg.all_tags:
+                    rg.git("tag", "-d", t["name"])
         return rg
 
     def run(self, case, ctx):
@@ -262,15 +272,16 @@ class Tags:
         if self.real:
             rg = self.build_real(case, d, clock)
             repo = None
-            existing = set(rg.tags())
-            reachable = set(rg.tags_merged())
+            existing = set(rg.all_tags)
+            reachable = set(rg.reachable_tags)
             # model validation: FakeRepo must answer like git does
             d2 = invoker.new_dir("gf")
             invoker.write_tree(d2, {"x": b""})
             fake = self.build_fake(case, d2)
-            f_all = set(fake.tags)
+            f_pending = dict((n, c) for n, c in fake.pending_remote_tags)
+            f_all = set(fake.tags) | set(f_pending)
             anc = fake.ancestors(fake.head_commit())
-            f_reach = set(t for t in fake.tags if fake.tags[t] in anc)
+            f_reach = set(t for t in fake.tags if fake.tags[t] in anc) | set(n for n, c in f_pending.items() if c in anc)
             if existing != f_all or reachable != f_reach:
                 raise invoker.HarnessError("FakeRepo disagrees with real git: all %s vs %s, merged %s vs %s" % (
                     sorted(f_all), sorted(existing), sorted(f_reach), sorted(reachable)))
@@ -295,6 +306,8 @@ class Tags:
             ctx.probe("branch_named_like_a_tag")
         if case.get("moved_remote_tag"):
             ctx.probe("tag_moved_on_the_remote")
+        if case.get("no_upstream"):
+            ctx.probe("branch_without_upstream")
         ctx.probe("personality_" + case.get("pers", "git"))
         two_digit = gp.has_two_digit_year(tree)
         for op in case["ops"]:
@@ -315,6 +328,8 @@ class Tags:
                 rg.set_date(clock)
                 shim = fakevcs.VcsShim(None, forward_env=rg.env)
                 pre_tags = set(rg.tags())
+                if not op.get("ignore"):
+                    pre_tags |= rg.all_tags       # (the run fetches first)
             else:
                 fault = None
                 if op.get("fault"):
